@@ -172,6 +172,16 @@ func oracleTypedDec(mode string, b []byte) (msg string, accepted bool) {
 }
 
 func emitTypedDec(c *hxlib.Ctx, kind, mode string, b []byte) {
+	key := "typed|" + mode + "|" + hex.EncodeToString(b)
+	if crashers[key] {
+		if !scanning {
+			c.Emit(hxlib.Case{Kind: "typed-" + kind + "/crash", Key: key,
+				Input:      map[string]interface{}{"t": "typed", "v": typedIn{Mode: mode, Hex: hex.EncodeToString(b)}},
+				Nontrivial: true, OracleErr: fmt.Sprintf("typed(%s) decoding %s: ", mode, trunc(b)) + crashMsg})
+		}
+		return
+	}
+	announce(key)
 	msg, acc := oracleTypedDec(mode, b)
 	if acc {
 		kind += "/accepted"
@@ -240,6 +250,9 @@ func replayTyped(v typedIn) string {
 		return msg
 	}
 	b, _ := hex.DecodeString(v.Hex)
+	if !scanning && dies("typed", v.Mode, v.Hex) {
+		return fmt.Sprintf("typed(%s) decoding %s: ", v.Mode, trunc(b)) + crashMsg
+	}
 	msg, _ := oracleTypedDec(v.Mode, b)
 	return msg
 }
